@@ -19,7 +19,16 @@ func init() {
 			s.expect(OK(s.CallC(5, counter, nil, "0", cgas)), "counter call 2 by another account")
 			s.End()
 			s.Begin(Hdr{Proposer: 2})
+			// read-only calls (vm_call query: caller | contract | calldata) between blocks and inside a block
+			vmcall := func(from int, to []byte, data []byte) {
+				q := append(append(append([]byte{}, s.R.KR.Addr(from)...), to...), data...)
+				s.Query("vm_call", q, 0)
+				s.Query("vm_call", q, s.R.Height)
+			}
+			vmcall(6, counter, nil) // would increment the counter if it were not read-only
+			vmcall(6, logger, append(word([]byte{9}), word([]byte{9})...))
 			s.expect(OK(s.CallC(6, logger, append(word([]byte{42}), word([]byte{7})...), "0", cgas)), "store_log call")
+			vmcall(5, counter, nil)
 			s.expect(OK(s.CallC(4, counter, nil, "0", cgas)), "counter call 3")
 			ev, ctx := s.Deploy(4, prog("context", nil), 0, "0", cgas)
 			s.expect(OK(ev), "deploy context reader")
